@@ -1,10 +1,24 @@
 import Rare.Drv.Expr
+import Rare.Spec.C17Wf
+import Rare.Spec.C17Atoi
 /-!
 Ops of C17 (besides the shared `expr` op):
 
   splitter <S hex> <Delim hex>                       drain the model of `stringSplitter.Splitter`
   conc <G> <rounds> <opt> <template> <elems> <keys>  the model is sequential and deterministic: same
                                                      answer as `expr` on the base context
+  atoi <text hex>                                    `strconv.Atoi`: the model `Rare.atoi` AND the reading of
+                                                     `atoi_iff` ([+-]?digits+, Horner value `decVal`, int64
+                                                     range) computed separately; they must agree
+  wf <opt> <template> <elems> <keys>                 the `expr` answer read as a list: number of elements,
+                                                     separator census, `elems` of the value (specification
+                                                     functions applied to the model's value; the harness
+                                                     applies strings.Count/strings.Split to the real value)
+  spec <helper> …                                    SPECIFICATION-level answers (no model of the Go code
+                                                     involved: `Spec/C17.lean` functions only) against the
+                                                     real helper:
+       spec split <s> <d> | spec join <arr> <d> | spec len <arr> | spec select <arr> <i>
+       spec slice <arr> <start> <len | -> | spec range <start> <stop> <incr> | spec in <v> <arr>
 -/
 namespace Rare.Drv.C17
 open Rare Rare.Expr Rare.Proto Rare.Expr.Funcs.Range
@@ -16,6 +30,64 @@ def drain : Nat → Splitter → List Bytes → Option (List Bytes)
     if sp.Done then some acc.reverse
     else let r := sp.Next; drain fuel r.2 (r.1 :: acc)
 
+/-- The right-hand side of `C17.atoi_iff`, computed directly. -/
+def specAtoi (s : Bytes) : Option Int :=
+  let (neg, ds) : Bool × Bytes :=
+    match s with
+    | 43 :: r => (false, r)
+    | 45 :: r => (true, r)
+    | r => (false, r)
+  if ds.isEmpty || !ds.all isDigitB then none
+  else
+    let v : Int := if neg then -(C17.decVal ds : Int) else (C17.decVal ds : Int)
+    if minInt64 ≤ v ∧ v ≤ maxInt64 then some v else none
+
+def valOf (ans : String) : Option Bytes :=
+  match ans.splitOn " val=" with
+  | [_, v] => Hex.dec v
+  | _ => none
+
+/-- An array value read as a list, with the separator census. -/
+def listView (v : Bytes) : String :=
+  s!"n={(C17.elems v).length} seps={v.count C17.NUL} elems={hexList (C17.elems v)}"
+
+/-- A specified element list as the harness sees it (`strings.Split` of the value): `pack` and read back. -/
+def specList (ys : List Bytes) : String := "ok " ++ listView (C17.pack ys)
+
+def specHandle : List String → String
+  | ["split", s, d] =>
+    match Hex.dec s, Hex.dec d with
+    | some sb, some db => if db.isEmpty then "bad-args" else specList (C17.splitOn db sb)
+    | _, _ => "bad-args"
+  | ["join", a, d] =>
+    match Hex.dec a, Hex.dec d with
+    | some ab, some db => "ok " ++ Hex.enc (C17.join db (C17.elems ab))
+    | _, _ => "bad-args"
+  | ["len", a] =>
+    match Hex.dec a with
+    | some ab => s!"ok {C17.len ab}"
+    | none => "bad-args"
+  | ["select", a, i] =>
+    match Hex.dec a, i.toInt? with
+    | some ab, some iv => "ok " ++ Hex.enc (C17.select (C17.elems ab) iv)
+    | _, _ => "bad-args"
+  | ["slice", a, st, ln] =>
+    match Hex.dec a, st.toInt?, (if ln = "-" then some (-1) else ln.toInt?) with
+    | some ab, some sv, some lv => specList (C17.slice (C17.elems ab) sv lv)
+    | _, _, _ => "bad-args"
+  | ["range", a, b, c] =>
+    match a.toInt?, b.toInt?, c.toInt? with
+    | some start, some stop, some incr =>
+      if incr = 0 ∨ (incr > 0 ∧ start > stop) ∨ (incr < 0 ∧ start < stop) then "ok value"
+      else if C17.rangeCount start stop incr > Gen.maxIterations then "ok inf"
+      else specList ((C17.range start stop incr).map itoa)
+    | _, _, _ => "bad-args"
+  | ["in", v, a] =>
+    match Hex.dec v, Hex.dec a with
+    | some vb, some ab => if vb ∈ C17.elems ab then "ok 1" else "ok 0"
+    | _, _ => "bad-args"
+  | _ => "bad-op"
+
 def handle (args : List String) : String :=
   match args with
   | ["splitter", s, d] =>
@@ -25,6 +97,24 @@ def handle (args : List String) : String :=
       | some l => "ok " ++ hexList l
       | none => "hang"
     | _, _ => "bad-args"
+  | ["atoi", s] =>
+    match Hex.dec s with
+    | some sb =>
+      if atoi sb ≠ specAtoi sb then "model-spec-disagree"
+      else match atoi sb with
+        | some v => s!"ok {v}"
+        | none => "err"
+    | none => "bad-args"
+  | ["wf", o, t, el, ks] =>
+    match Rare.Drv.Expr.handle ["expr", o, t, el, ks] with
+    | some a =>
+      if a.startsWith "ok " then
+        match valOf a with
+        | some v => "ok " ++ listView v
+        | none => "bad-answer"
+      else a
+    | none => "bad-op"
+  | "spec" :: rest => specHandle rest
   | ["conc", _, _, o, t, el, ks] =>
     match Rare.Drv.Expr.handle ["expr", o, t, el, ks] with
     | some a => a
